@@ -23,6 +23,8 @@ pub enum Stage {
     AfterClose,
     Connecting,
     Connected,
+    /// acting as server: CONNECT received, a failing CONNACK sent, the transport end not yet reported
+    Refused,
 }
 
 #[derive(Clone, Copy, Debug, PartialEq, Eq, Hash, Serialize, Deserialize)]
@@ -154,6 +156,9 @@ pub fn all_cells() -> Vec<Cell> {
                     for st in [Stage::AfterClose, Stage::Connecting, Stage::Connected] {
                         stages.push((st, side));
                     }
+                    if !side {
+                        stages.push((Stage::Refused, side));
+                    }
                 }
                 if ctor == CVer::Undetermined && hs == V::V5 {
                     // Fresh is the same cell for both handshake versions
@@ -210,7 +215,17 @@ pub fn prepare(c: &mut dyn Conn, cell: &Cell) -> Result<(), String> {
     if cell.stage == Stage::Connecting {
         return Ok(());
     }
-    let connack = connack_ap(cell.hs, &ConnackArgs { sp: false, fail: 0, p: HsProps::default() });
+    if cell.stage == Stage::Refused {
+        let refusal = connack_ap(cell.hs, &ConnackArgs { sp: false, fail: 3, p: HsProps::default() });
+        let e = c.send(&refusal)?.map_err(|p| format!("panic {p}"))?;
+        if !e.iter().any(|x| matches!(x, NEvent::Send { .. })) {
+            return Err(format!("refusing CONNACK not sent: {}", brief_list(&e)));
+        }
+        return Ok(());
+    }
+    // variant 1, v5.0 client that asked for a kept session: the server ends it (Session Expiry Interval 0 in CONNACK)
+    let override_sei = session_ended_by_server(cell);
+    let connack = connack_ap(cell.hs, &ConnackArgs { sp: false, fail: 0, p: HsProps { sei: if override_sei { Some(0) } else { None }, ..HsProps::default() } });
     if cell.as_client {
         let calls = recv_all(c, &refcodec::encode(&connack, idw))?;
         if !flat(&calls).iter().any(|x| matches!(x, NEvent::Recv(AP::Connack { .. }))) {
@@ -237,6 +252,10 @@ pub fn prepare(c: &mut dyn Conn, cell: &Cell) -> Result<(), String> {
     // AfterClose: transport lost
     c.closed().map_err(|p| format!("panic {p}"))?;
     Ok(())
+}
+
+fn session_ended_by_server(cell: &Cell) -> bool {
+    cell.variant == 1 && cell.as_client && cell.hs == V::V5 && cell.persistent && matches!(cell.stage, Stage::Connected | Stage::AfterClose)
 }
 
 #[derive(Debug, PartialEq, Eq)]
@@ -266,7 +285,7 @@ fn expectation(cell: &Cell) -> Expect {
     if !role_may_send(cell.role, cell.kind, cell.pv) {
         return Expect::Forbidden;
     }
-    let disconnected = matches!(cell.stage, Stage::Fresh | Stage::AfterClose);
+    let disconnected = matches!(cell.stage, Stage::Fresh | Stage::AfterClose | Stage::Refused);
     let connecting = cell.stage == Stage::Connecting;
     let connected = cell.stage == Stage::Connected;
     match cell.kind {
@@ -296,7 +315,7 @@ fn expectation(cell: &Cell) -> Expect {
                 Expect::Sent
             } else {
                 // what makes the session kept at this point: the CONNECT of this/previous connection, or offline publishing
-                let kept = (cell.persistent && cell.stage != Stage::Fresh) || cell.offline;
+                let kept = (cell.persistent && cell.stage != Stage::Fresh && !session_ended_by_server(cell)) || cell.offline;
                 if kept {
                     Expect::NotTransmitted
                 } else {
@@ -319,6 +338,10 @@ fn cell_sig(cell: &Cell) -> String {
 }
 
 pub fn test_cell(cell: &Cell, st: &mut Stats) -> R {
+    if cell.stage == Stage::Refused && cell.kind == Kind::Connect {
+        // a new CONNECT before the end of the refused transport was reported is application misuse
+        return Ok(());
+    }
     let cfg = ConnCfg { role: cell.role, ver: cell.ctor, idw: 2 };
     let mut c = new_conn(cfg);
     let sig = cell_sig(cell);
